@@ -15,6 +15,8 @@ using namespace vf;
 // ---- digesters
 template <typename T> struct Mod4Digest { std::size_t operator() (const T & v) const { return std::hash<T>()(v) % 4; } };
 template <typename T> struct ConstDigest { std::size_t operator() (const T &) const { return 7; } };
+// a Digester whose result type is not std::size_t: quarters in [0, 4), so distinct digests share their integer part
+template <typename T> struct FracDigest { double operator() (const T & v) const { return (double)(std::hash<T>()(v) % 16) / 4.0; } };
 
 // ---- storages
 enum Color { red = 1, green = 5 };
@@ -116,9 +118,9 @@ struct ILaws
 	virtual bool eq(int a, int b) = 0;
 	virtual bool lt(int a, int b) = 0;
 	virtual size_t hash(int a) = 0;
-	virtual unsigned long long digest(int a) = 0;
+	virtual long double digest(int a) = 0;
 	// what the Digester returns for the value itself, computed by the harness (the id's digest must be exactly that)
-	virtual unsigned long long expectedDigest(int a) = 0;
+	virtual long double expectedDigest(int a) = 0;
 	virtual bool comparableStorage() const = 0;
 	// what the (comparable) storage itself calls equal; the default is "same type and same content"
 	virtual bool storageEqual(int a, int b) const = 0;
@@ -144,18 +146,18 @@ struct Laws : ILaws
 	bool eq(int a, int b) override { return makeId<Id>(a) == makeId<Id>(b); }
 	bool lt(int a, int b) override { return makeId<Id>(a) < makeId<Id>(b); }
 	size_t hash(int a) override { return std::hash<Id>()(makeId<Id>(a)); }
-	unsigned long long digest(int a) override { return (unsigned long long)makeId<Id>(a).getDigest(); }
-	unsigned long long expectedDigest(int a) override {
+	long double digest(int a) override { return (long double)makeId<Id>(a).getDigest(); }
+	long double expectedDigest(int a) override {
 		const Val & v = kVals[((a % kPool) + kPool) % kPool];
 		switch(v.type) {
-		case 0: return (unsigned long long)Digester<int>()((int)v.num);
-		case 1: return (unsigned long long)Digester<long>()((long)v.num);
-		case 2: return (unsigned long long)Digester<unsigned>()((unsigned)v.num);
-		case 3: return (unsigned long long)Digester<char>()((char)v.num);
-		case 4: return (unsigned long long)Digester<bool>()(v.num != 0);
-		case 5: return (unsigned long long)Digester<Color>()((Color)v.num);
-		case 6: return (unsigned long long)Digester<std::string>()(std::string(v.str));
-		default: return (unsigned long long)Digester<UserKey>()(UserKey { (int)v.num });
+		case 0: return (long double)Digester<int>()((int)v.num);
+		case 1: return (long double)Digester<long>()((long)v.num);
+		case 2: return (long double)Digester<unsigned>()((unsigned)v.num);
+		case 3: return (long double)Digester<char>()((char)v.num);
+		case 4: return (long double)Digester<bool>()(v.num != 0);
+		case 5: return (long double)Digester<Color>()((Color)v.num);
+		case 6: return (long double)Digester<std::string>()(std::string(v.str));
+		default: return (long double)Digester<UserKey>()(UserKey { (int)v.num });
 		}
 	}
 	bool comparableStorage() const override { return Comparable; }
@@ -177,7 +179,7 @@ struct Laws : ILaws
 	}
 };
 
-const int kConfigs = 10;
+const int kConfigs = 12;
 ILaws * makeLaws(int cfg)
 {
 	switch(cfg) {
@@ -190,7 +192,9 @@ ILaws * makeLaws(int cfg)
 	case 6: return new Laws<ConstDigest, eventpp::EmptyAnyStorage, false>();
 	case 7: return new Laws<ConstDigest, OpaqueStorage, false>();
 	case 8: return new Laws<ConstDigest, TaggedStorage, true>();
-	default: return new Laws<std::hash, NumStorage, true>();
+	case 9: return new Laws<std::hash, NumStorage, true>();
+	case 10: return new Laws<FracDigest, eventpp::EmptyAnyStorage, false>();
+	default: return new Laws<FracDigest, TaggedStorage, true>();
 	}
 }
 
